@@ -10,7 +10,7 @@ use std::sync::Arc;
 
 type Body = Arc<dyn Fn() -> String + Send + Sync>;
 
-pub const INPUTS: [(&str, &str, u8); 10] = [
+pub const INPUTS: [(&str, &str, u8); 12] = [
     ("T1 parse: open 1364-2001 region using logic/do as identifiers", "`begin_keywords \"1364-2001\"\nmodule a; reg logic; wire do; endmodule\n`end_keywords\nmodule a2; logic l; endmodule\n", 0),
     ("T2 parse: logic as net name (must fail)", "module b; wire logic; endmodule\n", 0),
     ("T3 preprocess: function-like macros and conditionals", "`define F(x, y) x + y\n`ifdef A\n`F(1, 2)\n`else\n`F(3, (4, 5)) /* c */\n`endif\n`define G `F(a, b)\n`G\n", 1),
@@ -20,6 +20,8 @@ pub const INPUTS: [(&str, &str, u8); 10] = [
     ("T7 preprocess: include resolved through include path A", "`define P 1\nbefore\n`include \"c19_common.svh\"\nafter `WIDTH\n", 3),
     ("T8 preprocess: the same include name resolved through include path B", "x\n`include \"c19_common.svh\"\ny `WIDTH\n", 4),
     ("T9 parse: SystemVerilog keywords first, then a 1364-2001 region that is never closed", "module d; logic l; always_comb l = 1; endmodule\n`begin_keywords \"1364-2001\"\nmodule d2; reg logic; endmodule\n", 0),
+    ("T11 parse with allow_incomplete: a comment header, one good and one broken description", "// header\n/* c */\nmodule e; endmodule\nmodule f; wire ; endmodule\n", 6),
+    ("T12 parse_lib with allow_incomplete: a broken second declaration", "// header\nlibrary l a.v;\nlibrary ;\n", 7),
     ("T10 preprocess_str, then parse_sv_pp of its output (two calls): same text as T9", "module d; logic l; always_comb l = 1; endmodule\n`begin_keywords \"1364-2001\"\nmodule d2; reg logic; endmodule\n", 5),
 ];
 
@@ -50,7 +52,12 @@ fn body(k: usize) -> Body {
                 Ok(Ok((pt, dd))) => format!("OK {:?} {:?}", pt.text(), defs_sig(&dd, true, false)),
             },
             _ => {
-                let r = if kind == 2 { api::parse_lib_str(text, path, &d, &incs, false, false) } else { api::parse_sv_str(text, path, &d, &incs, false, false) };
+                let r = match kind {
+                    2 => api::parse_lib_str(text, path, &d, &incs, false, false),
+                    6 => api::parse_sv_str(text, path, &d, &incs, false, true),
+                    7 => api::parse_lib_str(text, path, &d, &incs, false, true),
+                    _ => api::parse_sv_str(text, path, &d, &incs, false, false),
+                };
                 match r {
                     Err(p) => format!("PANIC {}", p),
                     Ok(Err(e)) => format!("ERR {}", err_sig(&e)),
@@ -148,7 +155,7 @@ fn explore_combo(acc: &mut Acc, c: &Combo, solo: &[String]) {
 
 pub fn build(tier: Tier) -> Check<'static> {
     let mut c = Check::new("C19", tier, "6/C19");
-    c.rule = "2 and 3 real OS threads, one call each, inputs chosen to collide (open keyword region vs a text that must fail under the default set, in-directive white-space mode, same text twice, library grammar, a text that ends inside an unclosed keyword region - as one call and as preprocess_str followed by parse_sv_pp -, two threads resolving one include name through different paths); all schedules with <= 1 (quick) / 2 (thorough) preemptions at the library's hook points, every execution run to completion and compared with the solo results; states = scheduling points executed, traces = complete schedules; non-trivial = schedules in which a keyword/white-space decision of one thread ran while another thread's keyword or directive stack was open".into();
+    c.rule = "2 and 3 real OS threads, one call each, inputs chosen to collide (open keyword region vs a text that must fail under the default set, in-directive white-space mode, same text twice, library grammar, a text that ends inside an unclosed keyword region - as one call and as preprocess_str followed by parse_sv_pp -, two threads resolving one include name through different paths, strict and allow_incomplete calls side by side); all schedules with <= 1 (quick) / 2 (thorough) preemptions at the library's hook points, every execution run to completion and compared with the solo results; states = scheduling points executed, traces = complete schedules; non-trivial = schedules in which a keyword/white-space decision of one thread ran while another thread's keyword or directive stack was open".into();
     c.assumptions = vec![
         "interference is observable at the granularity of the hook points (token level); data races inside unsafe code are not modelled".into(),
         "a free-running pass (16 threads x 200 calls) is appended as a sampling sanity check of the scheduler itself; it is not the verdict".into(),
@@ -161,7 +168,7 @@ pub fn build(tier: Tier) -> Check<'static> {
     let solo: Arc<Vec<String>> = Arc::new((0..INPUTS.len()).map(|k| std::thread::spawn(move || body(k)()).join().unwrap()).collect());
     let mut combos: Vec<Combo> = vec![];
     let q = tier == Tier::Quick;
-    for pair in [[0usize, 1], [1, 0], [0, 2], [2, 0], [1, 2], [0, 3], [0, 4], [2, 5], [5, 0], [6, 7], [7, 6], [6, 2], [8, 1], [1, 8], [8, 2], [2, 8], [9, 1], [1, 9], [8, 8]] {
+    for pair in [[0usize, 1], [1, 0], [0, 2], [2, 0], [1, 2], [0, 3], [0, 4], [2, 5], [5, 0], [6, 7], [7, 6], [6, 2], [8, 1], [1, 8], [8, 2], [2, 8], [11, 1], [1, 11], [8, 8], [9, 1], [1, 9], [9, 4], [10, 4], [4, 10], [9, 10]] {
         combos.push(Combo { threads: pair.to_vec(), bound: 1, filter: f_fine, filter_name: "all hooks except memo", max: 50_000 });
     }
     combos.push(Combo { threads: vec![0, 1], bound: 1, filter: f_all, filter_name: "all hooks incl. memo get/insert", max: 50_000 });
